@@ -664,6 +664,7 @@ def check_C15(F, tier, t0):
     guarded(R, 'X8 flush', engine_x.rule_X8_flush, F, R, 'n_queens_gen')
     guarded(R, 'L remarks', engine_l.rule_comment_holes, F, R, 'n_queens_gen')
     front_end(R, F)       # the emitted text means what the language's tokenizer and operator tables say it means
+    guarded(R, 'X5', engine_x.rule_X5, F, R)      # ... with every name of the emitted formula a variable of its own
     evaluation(R, make_engine(F))       # ... and what the evaluator and the operations it dispatches to compute for it
     guarded(R, 'X3', engine_x.rule_X3, F, R); guarded(R, 'T filter spellings', engine_t.rule_tte, F, R)       # ... and the models are listed through the table printer (-t / -v, -f)
     R.floor('L-W:arithmetic-sites', 6); R.floor('L-W:ranges', 4); R.floor('N:loop-nests', 6); R.floor('N:proved-lines', 6); R.floor('N:families', 4)
@@ -684,6 +685,7 @@ def check_C16(F, tier, t0):
     guarded(R, 'X8 flush', engine_x.rule_X8_flush, F, R, 'max_clique_gen')
     guarded(R, 'L remarks', engine_l.rule_comment_holes, F, R, 'max_clique_gen')
     front_end(R, F)       # the emitted text means what the language's tokenizer and operator tables say it means
+    guarded(R, 'X5', engine_x.rule_X5, F, R)      # ... with every name of the emitted formula a variable of its own
     evaluation(R, make_engine(F))       # ... and what the evaluator and the operations it dispatches to compute for it
     guarded(R, 'X3', engine_x.rule_X3, F, R); guarded(R, 'T filter spellings', engine_t.rule_tte, F, R)       # ... and the models are listed through the table printer (-t / -v, -f)
     R.floor('L:complement-push-sites', 1); R.floor('L:truth-table-rows', 16); R.floor('L:vertex-list-uses', 3); R.floor('L:template-skeleton-pieces', 6)
@@ -752,6 +754,7 @@ def check_C17(F, tier, t0):
     guarded(R, 'X8 flush', engine_x.rule_X8_flush, F, R, 'sudoku_gen')
     guarded(R, 'L remarks', engine_l.rule_comment_holes, F, R, 'sudoku_gen')
     front_end(R, F)       # the emitted text means what the language's tokenizer and operator tables say it means
+    guarded(R, 'X5', engine_x.rule_X5, F, R)      # ... with every name of the emitted formula a variable of its own
     evaluation(R, make_engine(F))       # ... and what the evaluator and the operations it dispatches to compute for it
     guarded(R, 'X3', engine_x.rule_X3, F, R); guarded(R, 'T filter spellings', engine_t.rule_tte, F, R)       # ... and the models are listed through the table printer (-t / -v, -f)
     guarded(R, 'L-W', engine_l.rule_width, F, R, 'sudoku_gen')
